@@ -56,7 +56,8 @@ def _mk_frame(c):
     # deterministic process history: a frame with the same (fch1, df, sizes) but the OPPOSITE orientation is built first, so that anything memoised at module/class level on too coarse a key is in
     # the same condition in every process
     try:
-        stg.Frame(fchans=n, tchans=m, df=df, dt=dt, fch1=fch1, ascending=not asc, t_start=0.0)
+        # same unit-carrying arguments as the frame under test, so that the values reaching the constructor are bit-identical
+        stg.Frame(fchans=n, tchans=m, df=a_df, dt=a_dt, fch1=a_fch1, ascending=not asc, t_start=0.0)
     except Exception:
         pass
     if route in ('data', 'from_data'):
